@@ -165,6 +165,31 @@ theorem C20_collision_witness :
     rw [run_eq_spec]; simp [spec, runes, decodeRune, repl, isIdent, isDigit, isAlpha]
   simp [Docker.getLabels, h1, h2]
 
+private theorem map_repl_filter (l : List Nat) :
+    (l.map repl).filter (· != 95) = l.filter (fun r => isIdent r && r != 95) := by
+  induction l with
+  | nil => rfl
+  | cons r l ih =>
+    by_cases h : isIdent r = true
+    · simp [repl, h, ih, List.filter_cons]
+    · simp [repl, h, ih]
+
+/-- **C20 (length)**: one output byte per input rune, plus the leading `_` of a digit-initial key -/
+theorem C20_length (b : Nat) (rest : List Nat) :
+    (run (b :: rest)).length = (runes (b :: rest)).length + (if isDigit b then 1 else 0) := by
+  rw [run_eq_spec]; simp only [spec]; split <;> simp <;> omega
+
+/-- **C20 (nothing but `_` is invented, nothing else is lost)**: apart from underscores, the
+sanitised name consists of exactly the identifier characters of the key, in their order -/
+theorem C20_identifier_characters_kept (k : List Nat) :
+    (run k).filter (· != 95) = (runes k).filter (fun r => isIdent r && r != 95) := by
+  rw [run_eq_spec]
+  cases k with
+  | nil => simp [spec, runes]
+  | cons b rest =>
+    simp only [spec, List.filter_append, map_repl_filter]
+    split <;> simp
+
 -- non-vacuity: concrete instances of the hypotheses
 example : run [49, 97, 46, 98] = [95, 49, 97, 95, 98] := by   -- "1a.b" ↦ "_1a_b"
   rw [run_eq_spec]; simp [spec, runes, decodeRune, repl, isIdent, isDigit, isAlpha]
